@@ -66,6 +66,49 @@ def generate(repo):
                     f'def {name} (S0 S1 : Int) : {ty} :=\n  {lean_val(r)}\n')
     return '\n'.join(defs), ['propagate_fft: fft_shape = (S0, S1); only the scratch branch is translated']
 
+def _has_tilt(mod):
+    """`_has_tilt(wavefront)`: `for field in wavefront.data: if field.tilt: return True` / `return False` -> any-field test.
+    The loop is translated structurally (shape checked statement by statement, anything else refused)."""
+    fn = [n for n in ast.walk(mod) if isinstance(n, ast.FunctionDef) and n.name == '_has_tilt']
+    if not fn: raise Refuse('propagate.py: _has_tilt not found')
+    body = [s for s in fn[0].body if not (isinstance(s, ast.Expr) and isinstance(s.value, ast.Constant))]
+    ok = (len(body) == 2 and isinstance(body[0], ast.For) and ast.unparse(body[0].target) == 'field'
+          and ast.unparse(body[0].iter) == 'wavefront.data' and not body[0].orelse and len(body[0].body) == 1
+          and isinstance(body[0].body[0], ast.If) and ast.unparse(body[0].body[0].test) == 'field.tilt'
+          and not body[0].body[0].orelse and len(body[0].body[0].body) == 1
+          and ast.unparse(body[0].body[0].body[0]) == 'return True' and ast.unparse(body[1]) == 'return False')
+    if not ok: raise Refuse('_has_tilt: no longer `for field in wavefront.data: if field.tilt: return True` + `return False`')
+    return (f'/-- translated from `propagate.py:_has_tilt` (line {fn[0].lineno}): true iff SOME field of the wavefront has a non-empty tilt list;\n'
+            '`ntilt` = `len(field.tilt)` per field of `wavefront.data`, in order -/\n'
+            'def hasTilt (ntilt : List Int) : Bool :=\n  ntilt.foldr (fun n rest => if (decide (n ≠ (0 : Int))) then true else rest) false\n')
+
+def _guard_call(mod):
+    """`propagate_fft` must start by refusing `_has_tilt(wavefront)` with NotImplementedError"""
+    fn = [n for n in ast.walk(mod) if isinstance(n, ast.FunctionDef) and n.name == 'propagate_fft'][0]
+    body = [s for s in fn.body if not (isinstance(s, ast.Expr) and isinstance(s.value, ast.Constant))]
+    first = body[0]
+    if not (isinstance(first, ast.If) and ast.unparse(first.test) == '_has_tilt(wavefront)' and isinstance(first.body[0], ast.Raise)
+            and 'NotImplementedError' in ast.unparse(first.body[0]) and not first.orelse):
+        raise Refuse('propagate_fft: does not start with `if _has_tilt(wavefront): raise NotImplementedError`')
+
+_generate_scratch = generate
+def generate(repo):
+    body, notes = _generate_scratch(repo)
+    mod = ast.parse(open(os.path.join(repo, 'lentil/propagate.py')).read())
+    _guard_call(mod)
+    return body + '\n' + _has_tilt(mod), notes + ['_has_tilt: structural translation of the any-field loop']
+
+def _guarded(fn):
+    """any structural surprise while walking the source (missing attribute, index, key) is a refusal of the translator"""
+    def wrapped(repo):
+        try:
+            return fn(repo)
+        except Refuse:
+            raise
+        except (AttributeError, IndexError, KeyError, TypeError, ValueError) as e:
+            raise Refuse(f'source structure changed ({type(e).__name__}: {e})')
+    return wrapped
+
 MODULES = [
-    {'name': 'FftScratch', 'src': 'lentil/propagate.py', 'generator': generate, 'props': ['C09']},
+    {'name': 'FftScratch', 'src': 'lentil/propagate.py', 'generator': _guarded(generate), 'props': ['C09']},
 ]
